@@ -97,6 +97,7 @@ pub fn representatives() -> Vec<Val> {
         Val::Int(5),
         Val::Int(-3),
         Val::Float(2.5f64.to_bits()),
+        Val::Float(f64::NAN.to_bits()),
         Val::Type(type_to_u8(GarnishDataType::Number)),
         Val::Type(type_to_u8(GarnishDataType::List)),
         // type values that *name* a false kind are themselves true
@@ -621,7 +622,8 @@ impl Campaign for C08 {
         cfg.w_unary = 8;
         let keys = cfg.keys.clone();
         let mut g = Gen::new(rng, cfg);
-        let src = g.program().top();
+        let prog = g.program();
+        let src = g.print(&prog);
         let input = gen_input(rng, &keys);
         // expression values name jump entry 0 = the program's own entry: applying them recurses without bound
         let reps: Vec<Val> = representatives().into_iter().filter(|v| !matches!(v, Val::Expr(_)) && !matches!(v, Val::Partial(l, _) if matches!(**l, Val::Expr(_)))).collect();
